@@ -64,7 +64,9 @@ def plan(tier, seed):
         dict(seeds=seeds, operands=ops, small=small, acts=ACTS, lvl=2, dim=4, forms=forms, stride=1, ebound=20),
         dict(seeds=seeds, operands=ops, small=small, acts=ACTS | {"Sum3", "Product3", "Kronecker3"}, lvl=5, dim=4,
              forms=forms, stride=2, simulate=60, ebound=20),
-        dict(seeds=seeds, operands=ops, small=small, acts=API, lvl=3, dim=4, scalars=sc, forms=forms, ebound=20),
+        dict(seeds=seeds, operands=ops, small=small, acts=API, lvl=2, dim=4, scalars=sc, forms=forms, ebound=20),
+        dict(seeds=seeds, operands=ops, small=small, acts=API, lvl=4, dim=4, scalars=sc, forms=forms, ebound=20,
+             simulate=30),
     ]
 
 
